@@ -351,6 +351,22 @@ def menu_case(name):
         s = magpy.magnet.CylinderSegment(dimension=(0.25, 0.6, 1.1, 0, 360), polarization=pol)
         inner = magpy.magnet.Cylinder(dimension=(0.5, 1.1), polarization=tuple(-np.array(pol)))
         return [(f, cmp([s], [cyl, inner], f)) for f in "BH"]
+    if name == "sectors:on-hull-extension":
+        # observers exactly on the extension of the lateral surface (r == r0, above / below the body), 14 rows in one call
+        bounds = [0, 70, 200, 360]
+        segs = [magpy.magnet.CylinderSegment(dimension=(0, 0.6, 1.1, bounds[i], bounds[i + 1]), polarization=pol) for i in range(3)]
+        r0 = 0.6
+        pts = np.array([(r0 * np.cos(a), r0 * np.sin(a), z) for a in (0.0, np.pi / 2) for z in (0.7, 0.9, 1.3, 2.0, -0.65, -1.1, -3.0)])
+        res = []
+        for f in "BH":
+            ref = np.asarray(getattr(cyl, "get" + f)(pts))
+            got = sum(np.asarray(getattr(sg, "get" + f)(pts)) for sg in segs)
+            full = np.asarray(getattr(magpy.magnet.CylinderSegment(dimension=(0, 0.6, 1.1, 0, 360), polarization=pol), "get" + f)(pts))
+            sc = np.max(np.linalg.norm(got, axis=1))
+            for nm, a in (("cylinder", ref), ("full-segment", full)):
+                ok = np.all(np.isfinite(a)) and np.max(np.linalg.norm(a - got, axis=1)) <= 1e-6 * sc
+                res.append((f"{f}-{nm}", None if ok else f"differs from the sum of three sectors: {a[0].tolist()} vs {got[0].tolist()}"))
+        return res
     if name.startswith("sectors"):
         conv = name.split(":")[1]
         bounds = {"pos": [0, 70, 200, 360], "neg": [-360, -290, -160, 0], "mixed": [-270, -200, -90, 90],
@@ -363,15 +379,16 @@ def menu_case(name):
         dp = magpy.misc.Dipole(moment=mom)
         sel = [i for i in range(len(OBS)) if np.linalg.norm(OBS[i]) > 0.26]
         return [(f, cmp([sp], [dp], f, tol=1e-10, obs_sel=sel)) for f in "BH"]
-    if name == "ngon->circle":
-        circ = magpy.current.Circle(diameter=1.3, current=2.0)
-        pts = OBS[[1, 3, 7, 8]]
+    if name.startswith("ngon->circle"):
+        Rr = 0.65 if name == "ngon->circle" else 0.65e-6     # also at micrometre size: tiny segments are segments too
+        circ = magpy.current.Circle(diameter=2 * Rr, current=2.0)
+        pts = OBS[[1, 3, 7, 8]] * (Rr / 0.65)
         ref = circ.getH(pts)
         errs = []
         for j in range(8):
             N = 8 * 2 ** j
             t = np.linspace(0, 2 * np.pi, N + 1)
-            verts = np.array([0.65 * np.cos(t), 0.65 * np.sin(t), 0 * t]).T
+            verts = np.array([Rr * np.cos(t), Rr * np.sin(t), 0 * t]).T
             verts[-1] = verts[0]
             pl = magpy.current.Polyline(vertices=verts, current=2.0)
             errs.append(np.max(np.linalg.norm(pl.getH(pts) - ref, axis=1)) / np.max(np.linalg.norm(ref, axis=1)) * N * N)
@@ -385,7 +402,7 @@ MENU = ["repaired-mesh", "small-body:um", "small-body:mm", "cuboid=mesh", "cuboi
         "from_triangles", "from_mesh", "mesh-with-path", "two-boxes=disconnected-mesh:plain", "two-boxes=disconnected-mesh:flipB0",
         "two-boxes=disconnected-mesh:flipA-all", "two-boxes=disconnected-mesh:flipB-all", "two-boxes=disconnected-mesh:interleaved-flips", "cylinder=segment(0,360)", "cylinder=segment(-180,180)",
         "cylinder=segment(90,450)", "cylinder=segment(-360,0)", "cylinder=segment(-500,-140)", "hollow=difference", "sectors:pos",
-        "sectors:neg", "sectors:mixed", "sectors:far-neg", "sectors:far-pos", "sectors:straddle", "sphere=dipole(outside)", "ngon->circle"]
+        "sectors:neg", "sectors:mixed", "sectors:far-neg", "sectors:far-pos", "sectors:straddle", "sectors:on-hull-extension", "sphere=dipole(outside)", "ngon->circle", "ngon->circle:um"]
 
 
 def work(task):
